@@ -39,6 +39,13 @@ Theorem C17_progress : forall (B : Type) (rem : list B) frames b out rem' frames
 Proof. exact @ws_read_progress. Qed.
 Print Assumptions C17_progress.
 
+(* ... and never returns "no bytes, no error" to a reader with room: an empty binary frame is passed over (the protocol
+   layer's buffered reader gives a connection up after a hundred such reads in a row) *)
+Theorem C17_read_never_empty : forall (B : Type) (rem : list B) frames b out rem' frames',
+  0 < b -> ws_read rem frames b = Some (out, rem', frames') -> out <> [].
+Proof. exact @ws_read_never_empty. Qed.
+Print Assumptions C17_read_never_empty.
+
 (* ---- the writing side: the connection's writer and its reading side (which answers PINGs) put frames on ONE socket.
    With the write lock every unit that reaches the socket is a whole frame: whatever the schedule of the two, the client
    reads an interleaving of their frames, every frame intact.  (Frames with payloads below 256 bytes: the model's header
